@@ -100,6 +100,26 @@ Fixpoint node_all (P : list bytes -> Prop) (t : node) : Prop :=
 Definition names_ok (ns : list bytes) : Prop := NoDup ns /\ Forall name_ok ns.
 Definition wf_node : node -> Prop := node_all names_ok.
 
+(* executable check of wf_node (sound: CreatorsProofs.wf_nodeb_sound) *)
+Fixpoint nodup_namesb (ns : list bytes) : bool :=
+  match ns with
+  | [] => true
+  | n :: ns' => negb (existsb (bytes_eqb n) ns') && nodup_namesb ns'
+  end.
+Definition name_okb (n : bytes) : bool :=
+  match n with [] => false | _ :: _ => negb (existsb (Ascii.eqb slash) n) end.
+Fixpoint wf_nodeb (t : node) : bool :=
+  match t with
+  | File _ => true
+  | Dir es =>
+      nodup_namesb (map fst es) && forallb name_okb (map fst es) &&
+      (fix all (l : list (bytes * node)) : bool :=
+         match l with
+         | [] => true
+         | e :: l' => wf_nodeb (snd e) && all l'
+         end) es
+  end.
+
 (* every file under the tree, once, with its relative component list: plain recursion in the
    order of the [entries] lists *)
 Fixpoint files_of (rel : list bytes) (t : node) : list (list bytes * bytes) :=
@@ -469,6 +489,9 @@ Definition ex_tree' : node :=           (* the same tree, enumerated differently
 Definition ex_opts : options :=
   mk_options (bs "torrentfile_v0.9.2") 1700000000 [bs "http://t/a"; bs "http://u/a"]
              (bs "hi") true [] [bs "http://w/"] [].
+
+Example ex_wf : wf_nodeb ex_tree = true /\ wf_nodeb ex_tree' = true.
+Proof. split; vm_compute; reflexivity. Qed.
 
 (* filelist_total sorts whole path strings: a.txt before a/e, a/z *)
 Example ex_filelist :
